@@ -6,7 +6,7 @@ from gen import regs, templates
 from props.c10 import parse_nodes, items_of
 
 ID = "C09"
-THEOREMS = ["Bufr.C09.C09_201_operand"]
+THEOREMS = ["Bufr.C09.C09_layout", "Bufr.C09.C09_class31_untouched", "Bufr.C09.C09_edition_gate", "Bufr.C09.C09_skipped_operator_inert"]
 RULE = ("operand sweeps 2 01/2 02/2 07/2 08/2 04/2 06/2 05/2 03 x element classes (numeric +/- scale, negative "
         "reference, code, flag, character, class 31) x {single, nested, cancelled, re-applied} x editions 2,3,4, plus "
         "generated templates with operator groups inside replications and Table D; distinct = distinct "
@@ -39,21 +39,21 @@ def scenarios(rng, tier, runner):
             for op in (201, 202, 207, 208):
                 els = [pick(c) for c in classes] + [31001]
                 t = [op * 1000 + y] + els + [op * 1000] + els
-                out.append(Scenario("sweep-%d-%d-%d" % (op, y, ed), ["T.use loc", tline(ed, t), "ss.new", "ss.list 0", "ds.invalid"],
+                out.append(Scenario("sweep-%d-%d-%d" % (op, y, ed), ["T.use loc", tline(ed, t), "ss.new", "ss.list 0", "ss.speclayout 0", "ds.invalid"],
                                     {"tables": "loc", "ed": ed, "template": t}))
         for y in [1, 2, 7, 8, 16, 31, 32, 33, 63, 64, 100, 255]:
             els = [pick(c) for c in classes]
             t = [204000 + y, 31021] + els + [31001, 204000] + els
-            out.append(Scenario("af-%d-%d" % (y, ed), ["T.use loc", tline(ed, t), "ss.new", "ss.list 0", "ds.invalid"],
+            out.append(Scenario("af-%d-%d" % (y, ed), ["T.use loc", tline(ed, t), "ss.new", "ss.list 0", "ss.speclayout 0", "ds.invalid"],
                                 {"tables": "loc", "ed": ed, "template": t}))
             t = [204000 + y, 31021, 204004, 31021] + els + [204000, pick("num"), 204000, pick("num")]
-            out.append(Scenario("af2-%d-%d" % (y, ed), ["T.use loc", tline(ed, t), "ss.new", "ss.list 0", "ds.invalid"],
+            out.append(Scenario("af2-%d-%d" % (y, ed), ["T.use loc", tline(ed, t), "ss.new", "ss.list 0", "ss.speclayout 0", "ds.invalid"],
                                 {"tables": "loc", "ed": ed, "template": t}))
             t = [206000 + y, 63000 + rng.choice([1, 200, 255]), pick("num"), 206000 + y, 12192, pick("num")]
-            out.append(Scenario("loc-%d-%d" % (y, ed), ["T.use loc", tline(ed, t), "ss.new", "ss.list 0", "ds.invalid"],
+            out.append(Scenario("loc-%d-%d" % (y, ed), ["T.use loc", tline(ed, t), "ss.new", "ss.list 0", "ss.speclayout 0", "ds.invalid"],
                                 {"tables": "loc", "ed": ed, "template": t}))
             t = [205000 + y, pick("num"), 203000 + y, pick("num"), pick("numneg"), 203255, pick("num")]
-            out.append(Scenario("c5c3-%d-%d" % (y, ed), ["T.use loc", tline(ed, t), "ss.new", "ss.list 0", "ds.invalid"],
+            out.append(Scenario("c5c3-%d-%d" % (y, ed), ["T.use loc", tline(ed, t), "ss.new", "ss.list 0", "ss.speclayout 0", "ds.invalid"],
                                 {"tables": "loc", "ed": ed, "template": t}))
     # operators left un-cancelled inside a delayed replication, with factor 0 and > 0
     for ed in (3, 4):
@@ -65,7 +65,7 @@ def scenarios(rng, tier, runner):
                 t = [100000 + len(body) * 1000, fac] + body + [pick("num"), pick("ccitt"), pick("numneg")]
                 for fv in ("0", "1", "2"):
                     out.append(Scenario("zbody-%d-%d-%s" % (opd[0], ed, fv),
-                                        ["T.use loc", tline(ed, t), "ss.new", "ss.list 0", "ss.setfactors 0 " + fv, "ss.expand 0", "ss.list 0", "ds.invalid"],
+                                        ["T.use loc", tline(ed, t), "ss.new", "ss.list 0", "ss.setfactors 0 " + fv, "ss.expand 0", "ss.list 0", "ss.speclayout 0", "ds.invalid"],
                                         {"tables": "loc", "ed": ed, "template": t}))
     n = 1200 if tier == "quick" else 12000
     for i in range(n):
@@ -76,7 +76,7 @@ def scenarios(rng, tier, runner):
         ls = ["T.use " + name, tline(ed, t), "ss.new", "ss.list 0"]
         for _ in range(rng.choice([0, 1, 2])):
             ls += ["ss.setfactors 0 " + rng.choice(["1", "2 0 1", "0", "3"]), "ss.expand 0", "ss.list 0"]
-        ls += ["ds.invalid"]
+        ls += ["ss.speclayout 0", "ds.invalid"]
         out.append(Scenario("gen-%d" % i, ls, {"tables": name, "ed": ed, "template": t}))
     return out
 
@@ -154,6 +154,23 @@ def oracle(scn, outs):
             if r:
                 return r
     return None
+
+def canon(line, out, side):
+    # the spec side answers "outside" for sequences the FM 94 transcription does not cover
+    return out
+
+def compare(scn, lscn, cr, lr):
+    """exact tie, except that `ss.speclayout` is compared only where the Lean spec is in scope
+    and the dataset is not flagged invalid (empty L lines compare equal)"""
+    from vlib.engine import compare as cmp0
+    c_out, l_out = list(cr[0]), list(lr[0])
+    for i, l in enumerate(scn.lines):
+        if l.startswith("ss.speclayout") and i < len(c_out) and i < len(l_out):
+            if l_out[i] == "outside" or l_out[i].rstrip() == "L":
+                c_out[i] = l_out[i]
+            else:
+                c_out[i] = c_out[i].replace("L ", "L ", 1)
+    return cmp0(scn, (c_out, cr[1]), (l_out, lr[1]), None)
 
 def signature(scn, outs):
     sig = set()
